@@ -455,15 +455,15 @@ class Fn:
         k = rv["k"]
         if k == "use" or (k == "cast" and (rv["ck"].startswith("PointerCoercion") or rv["ck"] in ("PtrToPtr", "Transmute"))):
             base = self.apath(rv["a"], depth - 1)
-            return (base[0], base[1] + tuple(projs))
+            return self._select(base, projs)
         if k in ("ref", "rawptr"):
             base = self.apath_place(rv["place"], depth - 1)
-            return (base[0], base[1] + tuple(projs))
+            return self._select(base, projs)
         if k == "agg":
             name = rv["agg"] if rv["agg"] != "adt" else rv["adt"] + "::" + rv["variant"]
             if rv["agg"] == "closure":
                 name = "closure:" + rv["closure"]["path"]
-            return (("agg", name, tuple(self.apath(o, depth - 1) for o in rv["ops"]), d[1]), tuple(projs))
+            return self._select((("agg", name, tuple(self.apath(o, depth - 1) for o in rv["ops"]), d[1]), ()), projs)
         if k == "binop":
             return (("binop", rv["op"], self.apath(rv["a"], depth - 1), self.apath(rv["b"], depth - 1)), tuple(projs))
         if k == "unop":
@@ -473,6 +473,26 @@ class Fn:
         if k == "discr":
             return (("discr", self.apath_place(rv["place"], depth - 1)), tuple(projs))
         return (("rv", k, d[1], d[2]), tuple(projs))
+
+    @staticmethod
+    def _select(base, projs):
+        """A field of a value that was just put together is the operand it was built from: `(closure{a, b}).1` is b,
+        `(Some{x} as Some).0` is x."""
+        root = base[0]
+        projs = base[1] + tuple(projs)
+        while root[0] == "agg" and projs:
+            p0 = projs[0]
+            if isinstance(p0, str) and p0.startswith("as ") and len(projs) > 1 and str(root[1]).endswith("::" + p0[3:]):
+                projs = projs[1:]
+                p0 = projs[0]
+            elif isinstance(p0, str) and p0.startswith("as "):
+                break
+            if str(p0).isdigit() and int(p0) < len(root[2]) and (str(root[1]).startswith(("closure:", "tuple")) or "::" in str(root[1])):
+                sub = root[2][int(p0)]
+                root, projs = sub[0], sub[1] + projs[1:]
+            else:
+                break
+        return (root, projs)
 
     def apath(self, op, depth=16):
         c = const_of(op)
@@ -629,99 +649,31 @@ class Facts:
         return out
 
     # --- private helpers are the code of the function that calls them --------------------------------------------------
-    def inlined(self, fn, depth=3, _stack=(), keep=()):
-        """`fn` with the bodies of the private helpers of its crate spliced in at their call sites (MIR level): a rule that
-        looks for something *in* a function keeps finding it after `extract function` has moved it into a private helper.
-        The helpers themselves stay in the tables as functions of their own (inventories see every site exactly once)."""
+    def inlined(self, fn, keep=()):
+        """`fn` in normalised form (rules/inliner.py): private helpers and the closures of the choosing std combinators are put
+        back where they run.  The functions themselves stay in the tables (inventories see every site exactly once)."""
+        import inliner
         cache = self.__dict__.setdefault("_inl", {})
-        ck = (fn.id, keep)
-        if ck in cache and not _stack:
-            return cache[ck]
-        if "{closure" in fn.path:
-            return fn
-        raw = fn.raw
-        sites = []
-        for bb, b in enumerate(raw["blocks"]):
-            t = b["term"]
-            if t["k"] != "call" or "callee" not in t or b["cleanup"]:
-                continue
-            c = t["callee"]
-            if not c.get("local") or c.get("crate", fn.crate) != fn.crate:
-                continue
-            g = self.fns.get(c["id"])
-            if g is None or g.id == fn.id or g.id in _stack or depth <= 0:
-                continue
-            if g.raw.get("public") or g.raw.get("impl_trait") or "{closure" in g.path or g.crate != fn.crate:
-                continue
-            if len(g.raw["blocks"]) > 400 or len(t["args"]) != g.raw["arg_count"] or g.path.endswith(keep):
-                continue   # `keep`: helpers the rule itself names stay calls
-            sites.append((bb, g))
-        if not sites:
-            if not _stack:
-                cache[ck] = fn
-            return fn
-        new = dict(raw)
-        new["locals"] = list(raw["locals"])
-        new["vars"] = list(raw.get("vars", []))
-        new["blocks"] = [dict(b) for b in raw["blocks"]]
-        ids = []
-        for bb, g in sites:
-            gi = self.inlined(g, depth - 1, _stack + (fn.id,), keep)
-            ids.append(g.id)
-            ids += list(getattr(gi, "inlined_ids", ()))
-            loff, boff = len(new["locals"]), len(new["blocks"])
-            call = new["blocks"][bb]["term"]
-            cont = boff + len(gi.raw["blocks"])
-
-            def remap(x):
-                if isinstance(x, dict):
-                    if "l" in x and "p" in x and isinstance(x["l"], int):
-                        y = dict(x)
-                        y["l"] = x["l"] + loff
-                        y["p"] = [remap(q) for q in x["p"]]
-                        return y
-                    return {k: remap(v) for k, v in x.items()}
-                if isinstance(x, list):
-                    return [remap(v) for v in x]
-                return x
-            new["locals"] += list(gi.raw["locals"])
-            for v in gi.raw.get("vars", []):
-                new["vars"].append(remap(v))
-            for b in gi.raw["blocks"]:
-                nb = {"cleanup": b["cleanup"], "stmts": [remap(st) for st in b["stmts"]]}
-                t = remap(b["term"])
-                for key in ("target", "unwind", "otherwise"):
-                    if isinstance(t.get(key), int):
-                        t[key] = t[key] + boff
-                if "targets" in t:
-                    t["targets"] = [[v, tb + boff] for v, tb in t["targets"]]
-                if t["k"] == "return":
-                    t = {"k": "goto", "target": cont, "loc": t["loc"]}
-                elif t["k"] == "resume" and isinstance(call.get("unwind"), int):
-                    t = {"k": "goto", "target": call["unwind"], "loc": t["loc"]}
-                nb["term"] = t
-                new["blocks"].append(nb)
-            # continuation: the call's destination receives the helper's return slot
-            ret = {"l": loff, "p": [], "ty": gi.raw["locals"][0]}
-            kt = {"k": "goto", "target": call["target"], "loc": call["loc"]} if isinstance(call.get("target"), int) else {"k": "unreachable", "loc": call["loc"]}
-            new["blocks"].append({"cleanup": False, "stmts": [{"k": "assign", "place": call["dest"], "rv": {"k": "use", "a": {"move": ret}}, "loc": call["loc"]}], "term": kt})
-            # the call site: parameters receive the arguments, then the helper's entry block
-            blk = new["blocks"][bb]
-            blk["stmts"] = list(blk["stmts"]) + [
-                {"k": "assign", "place": {"l": loff + i + 1, "p": [], "ty": gi.raw["locals"][i + 1]}, "rv": {"k": "use", "a": a}, "loc": call["loc"]}
-                for i, a in enumerate(call["args"])]
-            blk["term"] = {"k": "goto", "target": boff, "loc": call["loc"]}
-        out = Fn(new, fn.crate)
-        out.inlined_ids = tuple(ids)
-        if not _stack:
-            cache[ck] = out
-        return out
+        ck = (fn.id, tuple(keep))
+        if ck not in cache:
+            cache[ck] = inliner.normalise(self, fn, tuple(keep))
+        return cache[ck]
 
     def hir_of(self, fn):
         h = self.hir[fn.crate].get(fn.id)
         if h is None:
             raise AnchorLost("no HIR body for %s" % fn.path)
         return h
+
+    def hirs_of(self, fn):
+        """HIR of fn and of every function the normalised form of fn contains (its private helpers)."""
+        out = [self.hir_of(fn)]
+        for gid in getattr(fn, "inlined_ids", ()):
+            g = self.fns.get(gid)
+            h = self.hir[g.crate].get(gid) if g is not None else None
+            if h is not None and h not in out:
+                out.append(h)
+        return out
 
     def adt(self, crate, suffix):
         res = [a for a in self.crates[crate]["adts"] if a["path"] == suffix or a["path"].endswith("::" + suffix)]
